@@ -145,6 +145,30 @@ let rec arg_val (a : string array) (i : int) : pyval * int =
     let (l, j) = go n (i + 2) [] in (VDict l, j)
   | _ -> failwith ("bad value " ^ t)
 
+(* python brace format *)
+let tset_s (t : tset) = String.concat "+" (List.filter (fun x -> x <> "")
+  [(if t.t_str then "str" else ""); (if t.t_int then "int" else ""); (if t.t_float then "float" else "")])
+let akey_s = function KNum n -> "N" ^ zs n | KName s -> "S" ^ out_str s
+let pberr_s = function
+  | BError p -> "Error " ^ out_str p | BFieldError t -> "Error " ^ out_str t | BConversionError -> "ConversionError"
+  | BFormatError -> "FormatError" | BFormatTypeMismatch -> "FormatTypeMismatch"
+  | BNumberingMixture -> "ArgumentNumberingMixture" | BRangeError -> "ArgumentRangeError" | BTypeMismatch -> "ArgumentTypeMismatch"
+let pybrace_res_s = function
+  | Ok (sg : pb_sig) -> "ok " ^ String.concat ";" (List.map (fun (k, (t, n)) -> akey_s k ^ "=" ^ tset_s t ^ "x" ^ string_of_int (int_of_nat n)) sg)
+  | Err e -> "err " ^ pberr_s e
+  | Crash c -> "crash " ^ crash_name c
+let optn_s = function None -> "-" | Some c -> ns c
+let mitem_s ((lit, f) : mitem) = match f with
+  | None -> "L" ^ out_str lit
+  | Some f -> "F" ^ out_str lit ^ ":" ^ out_str f.m_name ^ ":" ^ out_str f.m_spec ^ ":" ^ optn_s f.m_conv
+let fres_s = function FSuccess -> "Success" | FValueError -> "ValueError" | FIndexError -> "IndexError"
+  | FKeyError -> "KeyError" | FOverflowError -> "OverflowError" | FOutside -> "Outside"
+let bval_of (t : string) : bval = match t.[0] with
+  | 'i' -> BInt (arg_z (String.sub t 1 (String.length t - 1)))
+  | 'f' -> BFloat
+  | 's' -> BStr (arg_str t)
+  | _ -> failwith ("bad bval " ^ t)
+
 (* ---------- dispatch ---------- *)
 let handle (op : string) (a : string array) : string =
   match op with
@@ -184,6 +208,16 @@ let handle (op : string) (a : string array) : string =
     (if cpy_syntax_error s then "syn=1" else "syn=0") ^ (if plain_percents s then " plain=1" else " plain=0")
     ^ " " ^ String.concat " " (List.map event_s (cpy_events s))
   | "cpyfmt" -> cres_s (cpy_format (arg_str a.(0)) (fst (arg_val a 1)))
+  | "pybrace" -> pybrace_res_s (pybrace_parse_gen (arg_str a.(0)))
+  | "cpymarkup" -> (match cpy_markup (arg_str a.(0)) with
+                    | None -> "err"
+                    | Some l -> "ok " ^ String.concat " " (List.map mitem_s l))
+  | "cpybrace" -> (* str nargs v... nkw key v ... *)
+    let n = arg_int a.(1) in
+    let args = List.init n (fun i -> bval_of a.(2 + i)) in
+    let nk = arg_int a.(2 + n) in
+    let kw = List.init nk (fun i -> (arg_str a.(3 + n + 2 * i), bval_of a.(4 + n + 2 * i))) in
+    fres_s (cpy_format0 re_d_value (arg_str a.(0)) args kw)
   | _ -> "unknown-op " ^ op
 
 let () =
